@@ -102,6 +102,13 @@ impl Report {
                     let canon = |x: &str| -> String {
                         match p.level {
                             0 | 1 => crate::wire::l1(x),
+                            2 => {
+                                // value | absent-class error (Binding / Attribute) | other error, call log verbatim
+                                match x.split_once(' ') {
+                                    Some((head, rest)) => format!("{} {}", crate::wire::l2_absent(head), rest),
+                                    None => crate::wire::l2_absent(x),
+                                }
+                            }
                             3 => {
                                 // L1 on the result token, call log verbatim
                                 match x.split_once(' ') {
